@@ -2,6 +2,9 @@
 BASE_OFF = "cd /repo && GOFLAGS=-mod=mod GOPROXY=off go test -mod=mod -json -vet=off -count=1 -timeout 25m ./..."
 
 ENGINES = [
+    dict(name="claimcall", path="specs/ClaimCall.tla specs/ClaimCallTrace.tla harness/areas/claimcall checks/C20.py", serves_properties=["C20"],
+         kind_free_text="TLC exhaustive on the findCall/setClaimCalldata stack machine over all call trees; every tree replayed as a "
+                        "debug_traceTransaction answer into the real claim handlers -> ProcessBlock -> GetClaims; TLC trace validation"),
     dict(name="store", path="specs/Store.tla specs/Merkle.tla specs/StoreTrace.tla harness/areas/store harness/names checks/store_common.py",
          serves_properties=["C01", "C04", "C07", "C08", "C11", "C14"],
          kind_free_text="implementation-shaped spec of the SQLite processors and trees (frontier cache, rollback callbacks, never-cleaned node table); "
@@ -15,6 +18,17 @@ _STORE_NOTE = ("trusted: TLC; reference keccak Merkle tree / Solidity leaf packi
                "injector; bounds: H=3 and <= 7 leaves in the exhaustive model, real height 32 in replay")
 
 CHECKS = {
+    "C20": dict(
+        engine="claimcall", category="model_checking", design_ref="DESIGN.md section 5 C20",
+        text="TLC checks the stack-based DFS of findCall/setClaimCalldata/tryDecodeClaimCalldata as coded (ClaimCall.tla) against "
+             "Eligible(tree, gi) for every ordered call tree with <= 4 (quick) / <= 5 (thorough) frames, every reverted set, six frame kinds "
+             "and two global indexes; every enumerated tree plus seeded random trees up to 12 frames is ABI-encoded with the real bridge "
+             "ABIs, served as the debug_traceTransaction answer to the real Etrog and pre-Etrog claim event handlers, stored by the real "
+             "ProcessBlock and read back with GetClaims; TLC judges each recorded outcome against the monitor ClaimCallTrace.tla (all "
+             "call-derived fields from one eligible call; error iff no eligible call, and then no row).",
+        note="trusted: TLC; geth callTracer JSON shape; field provenance by per-frame unique values; precondition: every call to the bridge "
+             "is a claim call (other lines counted, not judged)",
+        technique="TLA+ model checking (TLC) + case replay into real code + TLC trace validation"),
     "C01": dict(engine="store", category="model_checking", design_ref="DESIGN.md section 5 C01", technique=_STORE_TECH, note=_STORE_NOTE,
         text="TLC checks the append path exactly as coded (in-place frontier, initCache on index mismatch, restart) against 'root at deposit i = "
              "reference root of the first i+1 leaves' for every partition of the deposits into blocks and every restart point; the edge cover is "
